@@ -36,9 +36,26 @@ def split_items(rng, app):
     return dict(app, items=out)
 
 
+def share_mount_point(rng, app, ids):
+    """sometimes the parent registers a route at a mount point itself, with other methods than the mounted application's root route"""
+    out = []
+    for it in app['items']:
+        if 'mount' in it:
+            sub = share_mount_point(rng, it['app'], ids)
+            if rng.random() < 0.4 and not any(x.get('route') == it['mount'] for x in app['items'] if 'route' in x):
+                ms = rng.sample(appgen.METHODS, rng.choice([1, 2, 3]))
+                rest = [m for m in appgen.METHODS if m not in ms]
+                sub = dict(sub, items=[x for x in sub['items'] if x.get('route') != '/'] + [{'route': '/', 'methods': rng.sample(rest, rng.choice([1, 2])), 'h': ids.handler(), 'local': []}])
+                out.append({'route': it['mount'], 'methods': ms, 'h': ids.handler(), 'local': []})
+            out.append({'mount': it['mount'], 'app': sub})
+        else: out.append(it)
+    rng.shuffle(out)
+    return dict(app, items=out)
+
+
 def mk(rng):
     ids = appgen.Ids()
-    app = split_items(rng, appgen.gen_app(rng, ids, fangs=False, local=False))
+    app = split_items(rng, share_mount_point(rng, appgen.gen_app(rng, ids, fangs=False, local=False), ids))
     paths = appgen.request_paths(rng, app, 16)
     reqs = []
     for p in paths:
@@ -58,7 +75,10 @@ def corpus():
             {'m': 'GET', 'p': hx('/x'), 'origin': True, 'acrm': None, 'acrh': None}, {'m': 'GET', 'p': hx('/nope'), 'origin': True, 'acrm': None, 'acrh': None}, {'m': 'HEAD', 'p': hx('/x'), 'origin': False, 'acrm': None, 'acrh': None}]
     pols = [{'origin': '*', 'credentials': True, 'allow_headers': None, 'expose_headers': None, 'max_age': None},
             {'origin': 'https://app.example', 'credentials': True, 'allow_headers': ['X-Token', 'Content-Type'], 'expose_headers': ['X-Total'], 'max_age': 600}]
-    return [{'case': {'cors': p, 'app': app, 'reqs': reqs}} for p in pols]      # was: /x advertised `POST, OPTIONS` only; the successful preflight had no declared length
+    shared = {'fangs': [], 'items': [R('/api', 1, ['GET']), {'mount': '/api', 'app': {'fangs': [], 'items': [R('/', 2, ['POST']), R('/z', 3, ['DELETE'])]}}]}
+    sreqs = [pf('/api', 'GET'), pf('/api', 'POST'), pf('/api', 'PUT'), pf('/api/z', 'DELETE'), pf('/api/z', 'GET'), {'m': 'GET', 'p': hx('/api'), 'origin': True, 'acrm': None, 'acrh': None}]
+    shared2 = {'fangs': [], 'items': [{'mount': '/api', 'app': {'fangs': [], 'items': [R('/', 2, ['POST'])]}}, R('/api', 1, ['GET', 'PUT'])]}
+    return [{'case': {'cors': p, 'app': app, 'reqs': reqs}} for p in pols] + [{'case': {'cors': pols[1], 'app': a, 'reqs': sreqs}} for a in (shared, shared2)]      # was: /x advertised `POST, OPTIONS` only; the successful preflight had no declared length
 
 
 def generate(rng, tier):
